@@ -77,7 +77,13 @@ func (l *listener) Listen(ctx context.Context, onMessage func(msg message) error
 
 		return nil
 	})
-	defer func() { _ = eg.Wait() }()
+	defer func() {
+		// The interrupt goroutine only returns once ctx is canceled, so cancel
+		// before waiting for it. Otherwise returning due to a receive or
+		// callback error would block forever.
+		cancel()
+		_ = eg.Wait()
+	}()
 
 	for {
 		// Receive and pass incoming NDP messages to the caller.
